@@ -148,6 +148,11 @@ Plan gen(uint64_t seed, const std::string& tier) {
                     tw.a[size_t(A_P0 + k)] = w;
                 }
             }
+            if (int(op.a[A_KIND]) == PK_HILBERT && r.chance(0.6)) {
+                // a NEAR twin: same transition width, a slightly different length (both may fall into one internal design grid)
+                tw.a[size_t(A_P0 + 1)] = op.a[size_t(A_P0 + 1)];
+                tw.a[size_t(A_P0)] = std::max(31.0, op.a[size_t(A_P0)] + double(2 * r.range(1, 12)) * (r.chance(0.5) ? 1.0 : -1.0));
+            }
             pl.ops.push_back(tw);
         }
     }
